@@ -72,6 +72,12 @@ pub fn gen(seed: u64, tier: Tier) -> ScenarioSpec {
     let mut spec = gen::base_spec(P, "S1", seed, rec);
     spec.stream = gen::gen_stream(&mut rng, len, false);
     spec.sink = gen::gen_sink(&mut rng, false);
+    if rng.chance(1, 10) {
+        spec.sink.enospc_after = Some(if rng.chance(1, 2) { (len as u64).saturating_sub(1 + rng.below(64)) } else { rng.below(len.max(1) as u64) });
+    }
+    if rng.chance(1, 10) {
+        spec.knobs.insert("prelude".into(), 2);
+    }
     spec
 }
 
@@ -86,6 +92,7 @@ pub fn run(spec: &ScenarioSpec, ctx: &mut Ctx) -> Result<(), Violation> {
     ctx.probe_if(irr.junk_after_end > 0 && m.end.is_some(), "junk after Game End inside the raw element");
     ctx.probe_if(irr.perm_pseed.is_some(), "non-canonical event order inside frames");
     let edges = m.edges();
+    prelude(spec.knob("prelude"), spec.seed, &m, ctx);
     let mut ro = read_slp_noopts(&m.bytes, &spec.stream, &edges);
     note_read(ctx, &mut ro);
     let g1 = match ro.res {
@@ -98,6 +105,16 @@ pub fn run(spec: &ScenarioSpec, ctx: &mut Ctx) -> Result<(), Violation> {
     };
     let w = write_slp(&g1, &spec.sink);
     note_write(ctx, &w);
+    if w.failed {
+        return match w.res {
+            Res::Ok(()) => Err(Violation::new(P, "swallowed-io-error", "slippi::write", format!("the sink failed after {} bytes but slippi::write returned Ok", w.data.len()))),
+            Res::Err(..) => {
+                ctx.probe("sink full: writer reported the error");
+                Ok(())
+            }
+            Res::Caught(c) => Err(caught_violation(P, "slippi::write", &c)),
+        };
+    }
     expect_ok(P, "slippi::write", w.res)?;
     let wbytes = w.data;
     // declared raw length == actual raw element length, by walking the written file's own payload table
